@@ -434,3 +434,20 @@ Proof.
   - vm_compute. intros x [<-|[<-|[]]]; cbn; tauto.
   - repeat constructor; cbn; discriminate.
 Qed.
+
+(** ** Delivery, for the runs of the skeleton semantics of the regenerated skeleton (converse source tie, Properties/C11.v)
+
+    [crun] (Pipe/Converse.v): a run of the skeleton semantics (Pipe/SkeletonSem.v) of the regenerated skeleton from
+    ProcessFeatures(source, targets, f), ANY schedule, whose data choices (is there another feature, type switch, keys
+    of the send loops, line 39, the tile matrix id read by the Router) follow the coupled model state [s]
+    ([C11_source_tie_skeleton_runs_are_model_runs]).  When such a run has ended with every goroutine returned, the
+    coupled model state is THE final state: every target has handled exactly its expected sequence — each feature
+    once, in source order, with the geometry of its own tile matrix, nothing for a dropped feature — and has finished. *)
+From Texel Require Import Pipe.SkeletonSem Pipe.Converse Pipe.ProofsGenConverse.
+
+Theorem C10_skeleton_final_delivery : forall cfg acts evs g s, wf_config cfg ->
+  let Pg := program gen_pipe_skeleton in
+  crun Pg cfg (ginit Pg (c_targets cfg)) (init cfg) acts evs g s -> gfinal g = true ->
+  s = final_state cfg /\ forall i, In i (c_targets cfg) -> recvd i s = expected cfg i /\ finished i s = true.
+Proof. exact gen_skeleton_final_delivery. Qed.
+Print Assumptions C10_skeleton_final_delivery.
